@@ -104,6 +104,8 @@ def parse_config_file(args_dict):
     path = term.pop('path')
     if path is None:
         path = all_files.pop('path', '.')
+    else:  # Terminal overrides the configuration file.
+        all_files.pop('path', None)
     path = os.path.abspath(path)
 
     # Initiate files dict with defaults.
